@@ -9,7 +9,6 @@ import (
 	"sync"
 	"sync/atomic"
 	"testing"
-	"time"
 
 	"github.com/andydunstall/piko/server/cluster"
 
@@ -138,7 +137,15 @@ func TestC06(t *testing.T) {
 				c.Class("go-away-upstream")
 			}
 		}
-		time.Sleep(150 * time.Millisecond) // let the go-away frames reach the servers
+		// wait until every server has seen the go-away of its upstream
+		for i := range cl.Nodes {
+			if goaway[i] {
+				n := cl.Nodes[i]
+				if !Eventually(Deadline(), func() bool { return n.Srv.VerifUpstream().VerifGoAwaySessions() == 1 }) {
+					c.Harnessf("go-away of the upstream on %s was not seen by the server", n.ID)
+				}
+			}
+		}
 		// believed views
 		believes := make([][]bool, N) // believes[i][j]: i thinks j serves ep (active, count>0)
 		stale, cycle := false, false
